@@ -459,6 +459,36 @@ def run(ctx):
     ctx.table('C06.R3.exit_sites', EXIT_SITES)
     ctx.floor('C06.R3', 5)
 
+    # ---- L1: progress guarantee of the capacity function --------------------------------------
+    R('C06.L1', 'VS', 'interval analysis over every path of CommandRunner::CanRunMore implementations: '
+      'the returned capacity is >= 1 unless the path established that a command is running (so the '
+      'main loop never ends "stuck" with work ready and nothing running)')
+    import pathint
+    for name in ('RealCommandRunner::CanRunMore', 'DryRunCommandRunner::CanRunMore'):
+        f = prog.fn(name)
+        caps = [d['n'] for d in f.events('decl') if d['n'].split('#')[0] == 'capacity']
+        if not caps:
+            rets = list(f.events('ret'))
+            v = const_value(rets[0].get('e')) if rets else None
+            if v is not None and v < 0 and f.retk == 'uint':
+                v += 1 << 64            # SIZE_MAX is serialised as a signed 64-bit value
+            ctx.check('C06.L1', len(rets) == 1 and v is not None and v >= 1, name, 'capacity:constant', f.loc,
+                      '%s returns the constant %s' % (name, v))
+            continue
+        def tag(bid, idx, efs):
+            for k, pol, atom in efs:
+                if 'running_.empty()' in k and pol is False:
+                    return 'something-running'
+            return None
+        res = pathint.return_intervals(f, caps[0], tag_edge=tag)
+        for (lo, hi), tags, path, e in res:
+            ok = lo >= 1 or 'something-running' in tags
+            ctx.check('C06.L1', ok, name, 'capacity:zero-while-idle', f.where(e),
+                      'path %s returns capacity in [%s, %s]%s' % (path, lo, hi, ' with a command running' if tags else ''),
+                      witness=None if ok else {'blocks': path, 'interval': [str(lo), str(hi)]})
+        ctx.check('C06.L1', len(res) >= 4, name, 'capacity:paths', f.loc, '%d return paths analysed' % len(res))
+    ctx.floor('C06.L1', 6)
+
     # ---- CF1: a slot cannot be copied or forged -------------------------------------------------
     R('C06.CF1', 'CF', 'Jobserver::Slot is move-only and cannot be constructed from an integer '
       'outside the class (a token cannot be duplicated or forged)')
